@@ -229,3 +229,18 @@ def units(prop, tier):
 # FINDING F2, fixed (C10, siv.digest.no_message): SivMode.digest()/verify() without a message derive S2V over the AD components alone (last AD component
 #   in the place of the plaintext, nonce not absorbed): update(b'hdr'); digest() != update(b'hdr'); encrypt_and_digest(b'')[1].
 #   Both were fixed in /repo (53dafb7a, 679a9782); the clauses stay registered as their own units.
+#
+# ASSUMED: CMAC object (digest == spec.aead2.cmac(key, msg); cmac.* contracts / bounded/hashes.py), native CTR object and <cipher module>.new
+#   (contracts/aead2_common.py; bounded/modes.py CTR, SIV one-shot), strxor, bytes_to_long/long_to_bytes, BLAKE2s-160 comparison, get_random_bytes.
+# NOT PROVED: _create_siv_cipher (keyword popping); output= paths of the one-shot methods; hexdigest/hexverify.
+# NOTE: with 126+ associated-data components the one-shot methods hit the S2V limit ("Too many components", TypeError) after _next/_kdf were
+#   already changed; the contracts carry the precondition that enough components are left.
+#
+# Mutants (tools/mut.py):
+#   M10 C12 KDF.py _double: `doubled ^= 0x86`                                                          -> exit 1, _S2V._double ensures.dbl
+#   M11 C12 KDF.py derive: pad byte b'\x81'                                                            -> exit 1, _S2V.derive ensures.v
+#   M13 C01 _mode_siv.py decrypt_and_verify: `self._kdf.update(ciphertext)`                            -> exit 1, raises_iff.ValueError.if + ensures.accepted
+#   M12c C02 _mode_siv.py _create_ctr_cipher: `nonce=b"\x00",`                                         -> exit 1, raises_only.ValueError
+#   M12/M12b C02 _create_ctr_cipher: mask constant changed / `initial_value=q + 1`                     -> exit 2 (ensures.ctr0 undecided: the solver
+#        finds no counter-model through the uninterpreted be(); the proof does not survive the change, but it is not reported as a violation)
+#   the tree fixes 53dafb7a / 679a9782 themselves: the contracts written for the old behaviour failed on the new code (modifies/tag obligations)
